@@ -63,6 +63,7 @@ struct ExportGate
 };
 static ExportGate *g_gate = nullptr;
 static bool g_expfail     = false;
+static bool g_ff_always_fails = false;  // expfail == 2: the exporter's ForceFlush always reports failure
 static int g_lat          = 0;
 
 static void export_body(const std::string &items)
@@ -118,7 +119,7 @@ struct VSpanExporter final : public sdktrace::SpanExporter
   bool ForceFlush(std::chrono::microseconds) noexcept override
   {
     vs::point(vs::K_USER, nullptr);
-    bool fail = g_expfail && vs::choose(2) == 1;
+    bool fail = g_ff_always_fails || (g_expfail && vs::choose(2) == 1);
     emitf("{\"e\":\"ExpFF\",\"ok\":%s}", fail ? "false" : "true");
     return !fail;
   }
@@ -197,7 +198,7 @@ struct VLogExporter final : public sdklogs::LogRecordExporter
   bool ForceFlush(std::chrono::microseconds) noexcept override
   {
     vs::point(vs::K_USER, nullptr);
-    bool fail = g_expfail && vs::choose(2) == 1;
+    bool fail = g_ff_always_fails || (g_expfail && vs::choose(2) == 1);
     emitf("{\"e\":\"ExpFF\",\"ok\":%s}", fail ? "false" : "true");
     return !fail;
   }
@@ -293,7 +294,8 @@ static void run_scenario(const Scenario &sc)
   ExportGate gate;
   gate.open = !sc.freeze;
   g_gate    = sc.freeze ? &gate : nullptr;
-  g_expfail = sc.expfail != 0;
+  g_expfail = sc.expfail == 1;
+  g_ff_always_fails = sc.expfail == 2;
   g_lat     = sc.lat;
   {
     std::unique_ptr<typename K::Proc> proc = K::make(sc);
@@ -376,7 +378,9 @@ static Scenario draw(uint64_t seed)
   sc.fto     = (int)(r() % 4);
   sc.post    = (int)(r() % 2);
   sc.freeze  = (r() % 8) == 0;
-  sc.expfail = (r() % 4) == 0;
+  sc.expfail = (int)(r() % 4);
+  if (sc.expfail == 3)
+    sc.expfail = 0;
   sc.destroy = (r() % 6) == 0;
   sc.delay_ms = (r() % 2) ? 5 : 1;
   if (sc.freeze)
